@@ -228,6 +228,8 @@ def verus_unit(run, unit, seed=0, twin=True, rlimit=None, timeout=600):
     for name, a, b in lemmas:
         if any(a >= x and b <= y for x, y in covered):
             continue
+        if any(a >= x and b <= (y or 10 ** 9) for x, y in meta.get('dep_ranges', [])):
+            continue        # lemma of a dependency include: reported by the unit that owns it
         obl.append({'name': 'verus:%s:lemma:%s' % (unit, name), 'fn': name, 'lines': [a, b], 'props': sorted(info['props']),
                     'kind': 'lemma', 'notwin': True})
     for o in obl:
@@ -242,6 +244,11 @@ def verus_unit(run, unit, seed=0, twin=True, rlimit=None, timeout=600):
         if not hit and e['primary_line'] is not None:
             hit = [o for o in obl if o['lines'][0] <= e['primary_line'] <= o['lines'][1]]
         if not hit:
+            lns = [l for l in (e['fail_line'], e['primary_line']) if l is not None]
+            if any(x <= l <= (y or 10 ** 9) for l in lns for x, y in meta.get('dep_ranges', [])):
+                # a lemma of a dependency include: decided and reported by the unit that owns it
+                res.setdefault('dep_notes', []).append(e['msg'] + ' :: ' + e['text'][:300])
+                continue
             res['tool_errors'].append('unattributed verus error: ' + e['text'][:600])
             continue
         for o in hit:
